@@ -34,7 +34,8 @@ on any bit string:
 
   * bitstream version 1 (`this.bsVersion == 1`, a value read from the stream header by the Reader)
     selects `decodeChunkV1`: modelled too (`stepV1`), with its data-driven renormalisation loops on
-    fuel `len(buffer)/2 + 1` (always enough) and its buffer sized from the stream's VarInt.  When
+    fuel `len(buffer)/2 + 1` (always enough) and its buffer of `sz + sz/8` bytes, `sz` being the
+    stream's VarInt, rejected above `max(2*len(block), 256)` (the repair of the forged-size allocation finding).  When
     its payload size is 0 it returns before writing anything: the caller's block keeps its bytes,
     which the model takes to be zeros (a block obtained from `make`, as in the harness).
 
@@ -358,14 +359,18 @@ structure PreV1 where
   st1 : Nat
   rest : Bits
 
-/-- `sz := ReadVarInt() & (MAX-1)`, `st0 := ReadBits(32)`, order 0 only: `st1 := ReadBits(32)` -/
-def chunkPreV1 (order : Nat) (bs : Bits) : R PreV1 :=
+/-- `sz := ReadVarInt() & (MAX-1)`; `if int(sz) > max(2*len(block), 256) { return false }` (the repair of
+    the forged-size allocation: checked BEFORE the states are read); `st0 := ReadBits(32)`, order 0
+    only: `st1 := ReadBits(32)` -/
+def chunkPreV1 (order len : Nat) (bs : Bits) : R PreV1 :=
   match readVarInt bs with
   | none => .eos
   | some (v, r) =>
-    (rBits 32 r).bind fun x0 =>
-      if order = 0 then (rBits 32 x0.2).bind fun x1 => .ok ⟨v % 2 ^ 27, x0.1, x1.1, x1.2⟩
-      else .ok ⟨v % 2 ^ 27, x0.1, 0, x0.2⟩
+    if v % 2 ^ 27 > max (2 * len) 256 then .err
+    else
+      (rBits 32 r).bind fun x0 =>
+        if order = 0 then (rBits 32 x0.2).bind fun x1 => .ok ⟨v % 2 ^ 27, x0.1, x1.1, x1.2⟩
+        else .ok ⟨v % 2 ^ 27, x0.1, 0, x0.2⟩
 
 /-- `if len(this.buffer) < sz { this.buffer = make([]byte, sz+(sz>>3)) }` -/
 def bufAllocV1 (sz : Nat) (buf : Array Nat) : Array Nat :=
@@ -487,7 +492,8 @@ def stepV2 (order lr len rem : Nat) (acc : List Nat) (h : Hdr) (buf : Array Nat)
 /-- `decodeChunkV1` and the end of the loop body -/
 def stepV1 (order lr len rem : Nat) (acc : List Nat) (h : Hdr) (buf : Array Nat) (bs0 : Bits) (fsz : Nat) : Step :=
   let bz := buf.size
-  match chunkPreV1 order h.rest with
+  match chunkPreV1 order len h.rest with
+  | .err => .done ⟨.ret acc.length true, acc, noSt, bs0, fsz, bz⟩   -- "incorrect chunk size"
   | .ok q =>
     if q.sz = 0 then
       -- `return` before anything is written: the caller's block keeps its bytes (zeros here)
